@@ -206,7 +206,15 @@ def run(tier, rep):
         raise ToolError("vacuity: too few erroneous or multi-byte inputs")
     # ---- the lexer against Lexer.tla: token kinds and byte ranges of every text of the bound and of whole files
     import lexercheck
-    lst = lexercheck.run(tier, rep, [(c["name"], open(c["src"]).read()) for c in corpus.single_file_cases()])
+    lfiles = [(c["name"], open(c["src"]).read()) for c in corpus.single_file_cases()]
+    if tier != "quick":         # every .gom file of the repository's test trees (typer / parser error cases, packages)
+        import glob as _glob
+        for f_ in sorted(_glob.glob(os.path.join(REPO, "crates", "**", "*.gom"), recursive=True)):
+            try:
+                lfiles.append((os.path.relpath(f_, REPO), open(f_, encoding="utf-8").read()))
+            except (UnicodeDecodeError, OSError):
+                pass
+    lst = lexercheck.run(tier, rep, lfiles)
     rep.coverage["lexer_specification"] = lst
     rep.coverage["states"] += lst["states"]
     rep.coverage["traces_validated_against_impl"] += lst["texts"]
